@@ -5,7 +5,9 @@ fails** for some of the proxies that a main loop has just sent to job preparatio
 `_prep_submit_task_job_error`: the flag `waiting_on_job_prep` is cleared and the failure is reported as the internal
 message "submission failed" (submit-failed via the preparation path: submission retry or final submit-failed),
 inside the main loop, after the release of the queued tasks and before the message queue is processed.
-The failed attempt has consumed a submit number; it is not a launch (no job exists).  Core Lean only.
+The failed attempt has consumed a submit number; it is not a launch (no job exists).
+The JSON layer also canonicalises the failure texts of job scripts (`failed/<SIGNAL>`, `aborted/<reason>` → `failed`).
+Core Lean only.
 -/
 import CylcModel.SchedJson
 open Lean CylcModel.Drv
@@ -52,6 +54,16 @@ def runX (g : Graph) (ops : List OpX) : List State := traceX g (init g) ops
 
 /-! ### JSON -/
 
+/-- the text of a job message as `process_message` reads it: the failure report of a job script carries the run
+signal or the abort reason (`failed/ERR`, `failed/SIGTERM`, `aborted/<reason>`); `split_run_signal` strips it and
+both prefixes denote the output `failed` -/
+def canonMsg (text : String) : String :=
+  if text.startsWith "failed/" || text.startsWith "aborted/" then "failed" else text
+
+def canonOp : Op → Op
+  | .msg p n sn text => .msg p n sn (canonMsg text)
+  | op => op
+
 def parseOpX (j : Json) : Except String OpX := do
   match jStrField? j "op", jArrField? j "prepfail" with
   | some "loop", some (f :: fs) =>
@@ -60,7 +72,7 @@ def parseOpX (j : Json) : Except String OpX := do
       | some (t :: _) => parseTaskId (← req (jStr? t) "prepfail task")
       | _ => .error "bad prepfail entry"
     return .loopPF ks
-  | _, _ => return .base (← parseOp j)
+  | _, _ => return .base (canonOp (← parseOp j))
 
 structure CaseX where
   graph : Graph
